@@ -1,5 +1,5 @@
 (* C13 - interval specifications mean the same in every accepted notation. *)
-From Verif Require Import Values Interval IntervalParse IntervalProofs.
+From Verif Require Import Values Interval IntervalParse IntervalProofs IntervalProofs2.
 Open Scope list_scope.
 Open Scope Z_scope.
 
@@ -18,6 +18,19 @@ Proof. exact time_contains_spec. Qed.
 Theorem C13_time_whole_day : forall a x, valid_time a = true -> valid_time x = true ->
   in_range_k KTime (a, a) x = true.
 Proof. exact time_whole_day. Qed.
+
+(* for distinct endpoints the ranges (a, b) and (b, a) partition the day: every moment is in
+   exactly one of them (left-closed/right-open on both, so the endpoints are not shared) *)
+Theorem C13_time_ranges_partition_day : forall a b x,
+  valid_time a = true -> valid_time b = true -> valid_time x = true -> time_key a <> time_key b ->
+  in_range_k KTime (a, b) x = negb (in_range_k KTime (b, a) x).
+Proof. exact time_ranges_partition_day. Qed.
+
+Example C13_partition_nonvacuous :
+  valid_time [22; 30; 0; 0] = true /\ valid_time [6; 0; 0; 0] = true /\ valid_time [6; 0; 0; 0] = true /\
+  in_range_k KTime ([22; 30; 0; 0], [6; 0; 0; 0]) [6; 0; 0; 0] = false /\
+  in_range_k KTime ([6; 0; 0; 0], [22; 30; 0; 0]) [6; 0; 0; 0] = true.
+Proof. vm_compute. repeat split; reflexivity. Qed.
 
 (* date ranges are inclusive and wrap around the year end (366-day circle) *)
 Theorem C13_date_contains_spec : forall a b x,
@@ -72,3 +85,4 @@ Print Assumptions C13_time_string_roundtrip.
 Print Assumptions C13_fraction_digits.
 Print Assumptions C13_date_string_roundtrip.
 Print Assumptions C13_month_names_any_case.
+Print Assumptions C13_time_ranges_partition_day.
